@@ -453,7 +453,8 @@ def build_schema(models: list[tuple], v11: bool, extra: str = '', oc: Optional[t
     body = [extra]
     octxt = ''
     if oc is not None:
-        octxt = (f'<xs:openContent mode="{oc[0]}"><xs:any namespace="{oc[1]}" processContents="lax"/>'
+        pc = oc[2] if len(oc) > 2 else 'lax'
+        octxt = (f'<xs:openContent mode="{oc[0]}"><xs:any namespace="{oc[1]}" processContents="{pc}"/>'
                  '</xs:openContent>')
     defs: list = []
     for k, m in enumerate(models):
